@@ -237,6 +237,14 @@ def load_and_check(spec):
                 except Exception as e:
                     got = e
                 chk('traces', got, tr['raw'][:, tr['channel_map']], tr['raw'].dtype)
+                # the same rows one by one (an integer index and a one-row slice are two routes to a row)
+                if not isinstance(got, BaseException) and tr['raw'].shape[0] >= 2:
+                    for i in (1, tr['raw'].shape[0] - 1):
+                        try:
+                            row = np.atleast_2d(np.asarray(m.traces[i]))
+                        except Exception as e:
+                            row = e
+                        chk('traces', row, tr['raw'][[i]][:, tr['channel_map']], tr['raw'].dtype)
             # features (memory-mapped; exempt at NaN positions)
             if tr['pc_features'] is not None:
                 f = np.asarray(m.sparse_features.data)
@@ -329,6 +337,46 @@ def run_case(case, acc, order):
                                             expected=exp, observed=got), len(culprit) * 10 ** 6 + order)
 
 
+def run_regen(case, acc, order):
+    """A history over one directory: a dataset is written and loaded, then another dataset (other
+    sampling rate, raw channel count, sample type and header offset) is written under the same path and
+    loaded in the same process: the second model shows the second dataset."""
+    import shutil
+    from phylib.io.model import load_model
+    with core.Scratch() as d:
+        acc.state()
+        for step, spec in enumerate(case['specs']):
+            if step:
+                shutil.rmtree(str(d / 'ds'))
+            tr = dsgen.make_dataset(d / 'ds', dict(spec, fill=case.get('fill', 0) + step))
+            bad = []
+            try:
+                m = load_model(tr['params_path'])
+                try:
+                    sr = float(spec['sample_rate'])
+                    samples = tr['spike_samples'].astype(np.float64)
+                    if float(m.sample_rate) != sr:
+                        bad.append(('sample_rate', 'value', sr, float(m.sample_rate)))
+                    if not np.array_equal(np.asarray(m.spike_times, dtype=np.float64), samples / sr):
+                        bad.append(('spike_times', 'value', describe(samples / sr), describe(m.spike_times)))
+                    exp = tr['raw'][:, tr['channel_map']]
+                    got = np.asarray(m.traces[:])
+                    if got.shape != exp.shape or got.dtype != exp.dtype or not np.array_equal(got, exp):
+                        bad.append(('traces', 'value', describe(exp), describe(got)))
+                finally:
+                    m.close()
+            except Exception as e:
+                import traceback
+                bad.append(('load', type(e).__name__, 'a model', traceback.format_exc()[-500:]))
+            acc.step(step > 0, 'load:after-rewrite' if step else 'load:first')
+            for attr, kind, exp_, got_ in bad:
+                sig = '%s/load-history/%s/%s/%s' % (PROP, attr, kind, 'after-rewrite-in-place' if step else 'first')
+                acc.violation(sig, core.make_record(PROP, 'load-history', sig, case=case, op={'step': step},
+                                                    expected=exp_, observed=got_), order * 10 + step)
+            if bad:
+                return
+
+
 def explore(ctx):
     K = 4 if ctx.thorough else 3
     fills = [ctx.seed, ctx.seed + 1]
@@ -360,8 +408,18 @@ def explore(ctx):
     cases = [c for i, c in enumerate(cases) if c not in cases[:i]]
     ctx.run_cases(run_case, cases, sweep='one-channel')
     ctx.notes['deviations_completed'] = K
+    # histories over one directory: loaded, rewritten in place with other parameters, loaded again
+    A = {'sample_rate': 100.0, 'n_channels': 4, 'raw_extra_channels': 0, 'raw_dtype': 'int16', 'raw_offset': 0}
+    B = {'sample_rate': 2500.5, 'n_channels': 4, 'raw_extra_channels': 2, 'raw_dtype': 'float32', 'raw_offset': 6}
+    C_ = {'sample_rate': 25000.0, 'n_channels': 3, 'raw_extra_channels': 1, 'raw_dtype': 'int16', 'raw_offset': 0,
+          'naming': 'alf'}
+    cases = [{'specs': list(seq), 'fill': ctx.seed, 'regen': True}
+             for seq in itertools.permutations((A, B, C_), 2)] + [{'specs': [A, B, C_], 'fill': ctx.seed, 'regen': True}]
+    ctx.run_cases(run_regen, cases, chunk=1, sweep='rewrite-in-place-and-reload')
 
 
 def replay(record):
     imports()
+    if record['case'].get('regen'):
+        return core.replay_case(run_regen, record)
     return core.replay_case(run_case, record)
